@@ -321,6 +321,9 @@ func lookup(instr *ssa.Lookup, x, idx value) value {
 		var ok bool
 		switch x := x.(type) {
 		case map[value]value:
+			if mk, found := symMapKey(x, idx); found {
+				idx = mk
+			}
 			v, ok = x[idx]
 		case *hashmap:
 			v = x.lookup(idx.(hashable))
@@ -1576,4 +1579,68 @@ func (it *sortedMapIter) next() tuple {
 	k := it.keys[it.i]
 	it.i++
 	return []value{true, k, it.m[k]}
+}
+
+// symMapKey: for a map with string keys and a lookup key that is (or whose
+// stored keys are) a symbolic string, decide by branching which stored key it
+// equals; returns that stored key.
+func symMapKey(m map[value]value, key value) (value, bool) {
+	_, keySym := key.(*symstr)
+	anySym := keySym
+	if !anySym {
+		if _, ok := key.(string); !ok {
+			return nil, false
+		}
+		for k := range m {
+			if _, ok := k.(*symstr); ok {
+				anySym = true
+				break
+			}
+		}
+	}
+	if !anySym {
+		return nil, false
+	}
+	kb, _ := strBytes(key)
+	// deterministic order: by insertion is unknown; order candidates by length then concrete prefix
+	var cands []value
+	for k := range m {
+		cands = append(cands, k)
+	}
+	sort.Slice(cands, func(i, j int) bool { return symKeyOrder(cands[i]) < symKeyOrder(cands[j]) })
+	for _, k := range cands {
+		b, ok := strBytes(k)
+		if !ok {
+			continue
+		}
+		t := bytesEqTerm(kb, b)
+		switch t.term {
+		case "false":
+			continue
+		case "true":
+			return k, true
+		}
+		if X.branch(t) {
+			return k, true
+		}
+	}
+	return nil, false
+}
+
+func symKeyOrder(k value) string {
+	switch x := k.(type) {
+	case string:
+		return "0" + x
+	case *symstr:
+		s := fmt.Sprintf("1%04d", len(x.b))
+		for _, b := range x.b {
+			if c, ok := b.(uint8); ok {
+				s += string(rune(c))
+			} else {
+				s += b.(sym).term
+			}
+		}
+		return s
+	}
+	return "2"
 }
